@@ -734,6 +734,7 @@ pub fn run(a: &Args) {
         run_random_sequence(&mut out, &mut rng, "C17", &gen, 5);
     }
     report_executor_api(&mut out, "C17");
+    out.extra.insert("audit".into(), audit_c17());
     let n_states = (a.n / 50).clamp(20, 1000);
     oracle_sweep(&mut out, &mut rng, n_states);
     // per-command × classification × key-state table of the sweep, for the evidence
